@@ -1,6 +1,19 @@
 // C15 - no call hangs and nothing leaks, whatever the peer does.
 package main
 
-import "verifharness/vh"
+import (
+	"fmt"
+	"os"
 
-func main() { vh.Main(vh.Runner{Property: "C15", Gen: gen, Run: run}) }
+	"verifharness/vh"
+)
+
+func main() {
+	if len(os.Args) >= 3 && os.Args[1] == "child-txsub" {
+		n := 50
+		fmt.Sscan(os.Args[2], &n)
+		childTxSub(n)
+		return
+	}
+	vh.Main(vh.Runner{Property: "C15", Gen: gen, Run: run})
+}
